@@ -68,6 +68,15 @@ type elem struct {
 	seg     int // intended segment (styp/sidx-in-segment/emsg/moof/mdat), -1 otherwise
 	frag    int // intended fragment within the file (emsg/moof/mdat), -1 otherwise
 	pos     uint64
+	vsize   uint64 // >0: a virtual mdat of that total size (data holds its 16-byte header only; read through a sparse reader)
+}
+
+// size of the box in the (possibly virtual) file
+func (e *elem) size() uint64 {
+	if e.vsize > 0 {
+		return e.vsize
+	}
+	return uint64(len(e.data))
 }
 
 type layout struct {
@@ -80,6 +89,8 @@ type layout struct {
 	desc         string
 	refTrack     uint32
 	refTimescale uint32
+	big          bool // has virtual mdat boxes: decoded lazily through a sparse reader, never encoded as a whole
+	noTrex       bool // the reference track has no trex: UpdateSidx must return an error
 }
 
 func encodeBox(b mp4.Box) []byte {
@@ -331,6 +342,18 @@ func (l *layout) bytes() []byte {
 
 // place computes positions from the harness's own scan of the serialized file.
 func (l *layout) place() {
+	if l.big {
+		pos := uint64(0)
+		for _, e := range l.els {
+			e.pos = pos
+			e.hdr = 8
+			if len(e.data) >= 16 && binary.BigEndian.Uint32(e.data) == 1 {
+				e.hdr = 16
+			}
+			pos += e.size()
+		}
+		return
+	}
 	data := l.bytes()
 	sb, ok := scanTop(data)
 	if !ok || len(sb) != len(l.els) {
@@ -352,7 +375,7 @@ func hexN(v uint64) string { return hx.HexU(v) }
 
 func (e *elem) describe(cls int) string {
 	var sb strings.Builder
-	fmt.Fprintf(&sb, "%c,%s,%s,%s,%d,%d,%d,%d", e.kind, hexN(uint64(len(e.data))), hexN(uint64(e.hdr)), hexN(e.fo),
+	fmt.Fprintf(&sb, "%c,%s,%s,%s,%d,%d,%d,%d", e.kind, hexN(e.size()), hexN(uint64(e.hdr)), hexN(e.fo),
 		b2i(e.stts), b2i(e.mfro), cls, e.version)
 	sb.WriteByte('|')
 	for i, r := range e.refs {
@@ -1163,6 +1186,8 @@ func cmdCorr(seed uint64, n, exh int) {
 			emitCase(fmt.Sprintf("m-%d", i), g.random(a))
 		}
 	}
+	// k tracks with arbitrary ids / traf order / missing tracks / empty truns, huge durations, virtual huge mdat boxes
+	corrMulti(g, n/3)
 }
 
 func main() {
